@@ -179,7 +179,9 @@ RowArgExprs == { ACall("join", <<AVal, AKey, AStr(<<120>>)>>), ACall("join", <<A
 C10RowArgs == { [st |-> Select(<<F(AKey, ""), F(e, "")>>, All, <<>>, <<>>, NoLim), sid |-> sid] : e \in RowArgExprs, sid \in {"T", "V"} }
 \* integers beyond 2^53 keep every digit: straight from the pair, through str(), as a literal
 StoreB == << SP(<<57,48,48,55,49,57,57,50,53,52,55,52,48,57,57,51>>, <<55>>), SP(a, <<57,48,48,55,49,57,57,50,53,52,55,52,48,57,57,51>>), SP(ab, <<49,50,51,52,53,54,55,56,57,48,49,50,51,52,53,54,55,56,57>>),
-             SP(abc, <<45,57,48,48,55,49,57,57,50,53,52,55,52,48,57,57,51>>), SP(bb, <<52,50>>) >>
+             SP(abc, <<45,57,48,48,55,49,57,57,50,53,52,55,52,48,57,57,51>>), SP(bb, <<52,50>>),
+             \* the ends of the int64 range: further apart than any difference can express
+             SP(c1, <<57,50,50,51,51,55,50,48,51,54,56,53,52,55,55,53,56,48,55>>), SP(c2, <<45,57,50,50,51,51,55,50,48,51,54,56,53,52,55,55,53,56,48,55>>), SP(dd, <<45,53>>) >>
 BigExprs == { Call1("int", AVal), Call1("str", Call1("int", AVal)), Call1("int", AKey) , Call1("int", Call1("upper", AVal)), Call1("int", AStr(<<57,48,48,55,49,57,57,50,53,52,55,52,48,57,57,51>>)),
               Call1("is_int", AVal), ABin("=", Call1("str", Call1("int", AVal)), AVal), AIdx(ACall("int_list", <<AVal, AInt(1)>>), AInt(0)) }
 C10Big == { [st |-> Select(<<F(AKey, ""), F(e, "")>>, ABin("!=", AKey, AStr(<<122>>)), <<>>, <<>>, NoLim), sid |-> "B"] : e \in BigExprs }
